@@ -194,6 +194,11 @@ def fmt_families(fmt, ops, attr_vals=None, star=False, abstract=True, extra=None
         'thorough': dict(consts=dict(N=2, MaxKids=1, MinHi=1, Axes={'ctc'}, MaxCtc=2, CtcDepth=1, CtcBinOps={'IMPLIES', 'OR'}, CtcMinFeatures=2,
                                      Fmt=fmt), invariants=tlc.GEN_INVARIANTS, cap=4000),
     }
+    chain_ops = sorted(set(ops) & {'AND', 'OR', 'XOR', 'EQUIVALENCE'})
+    fams[fmt + '-Chain'] = {   # one long left-nested chain of an associative operator (6 to 12 literals over three names)
+        t: dict(consts=dict(N=3, MaxKids=2, MinHi=1, Axes={'ctc'}, MaxCtc=1, CtcDepth=0, CtcBinOps=set(), CtcMinFeatures=3,
+                            CtcChains={(o, n) for o in chain_ops for n in ((6, 7, 10) if t == 'quick' else (5, 6, 7, 9, 10, 12))}, Fmt=fmt),
+                invariants=tlc.GEN_INVARIANTS, cap=400 if t == 'quick' else 3000) for t in ('quick', 'thorough')}
     if star:
         fams[fmt + '-Star'] = {
             'quick':    dict(consts=dict(N=4, MaxKids=3, MinHi=1, AllowStar=True, Fmt=fmt), invariants=tlc.GEN_INVARIANTS),
@@ -344,11 +349,11 @@ FAMILIES['Surface-uvl'] = surface({'quote': B, 'parens': B, 'merge': B, 'comment
                                    'header': ['none', 'namespace', 'imports', 'include', 'all']},
                                   ['bracket', 'operator', 'section', 'indent', 'badchar'], 12)   # pool size 12
 
-FAMILIES['Surface-fide'] = surface({'order': B, 'optattr': ['implicit', 'explicit'], 'nary': B, 'extras': B, 'pretty': B, 'noctc': B},
-                                   ['unknownrule'], 10)
+FAMILIES['Surface-fide'] = surface({'order': B, 'optattr': ['implicit', 'explicit'], 'nary': B, 'extras': B, 'pretty': B, 'noctc': B, 'groupmand': B},
+                                   ['unknownrule'], 12)
 FAMILIES['Surface-xml'] = surface({'order': B, 'pretty': B, 'relnames': B, 'cardfirst': B, 'setsingle': ['0']}, ['duplicate'], 10)
-FAMILIES['Surface-afm'] = surface({'parens': B, 'order': B}, ['relational'], 10)
-FAMILIES['Surface-glencoe'] = surface({'ids': B, 'order': B, 'extras': B, 'minmax': B, 'pretty': B}, ['unknowntype'], 10)
+FAMILIES['Surface-afm'] = surface({'parens': B, 'order': B}, ['relational'], 12)
+FAMILIES['Surface-glencoe'] = surface({'ids': B, 'order': B, 'extras': B, 'minmax': B, 'pretty': B, 'nary': B}, ['unknowntype'], 12)
 FAMILIES.update({
     'Ref-xml': {t: dict(consts=dict(N=5, MaxKids=3, MinHi=0, Axes={'ctc'}, MaxCtc=2, CtcDepth=1, CtcBinOps={'REQUIRES', 'EXCLUDES'},
                                     CtcMinFeatures=4, MaxLevel=7),
@@ -360,6 +365,9 @@ FAMILIES.update({
     'Ref-glencoe-Ctc': {t: dict(consts=dict(N=5, MaxKids=3, MinHi=0, Axes={'ctc'}, MaxCtc=2, CtcDepth=1, CtcBinOps=LOGIC_BIN,
                                             CtcMinFeatures=4, Fmt='glencoe', MaxLevel=8),
                                 invariants=tlc.GEN_INVARIANTS, simulate=dict(num=300, depth=8)) for t in ('quick', 'thorough')},
+    'Ref-Chain': {t: dict(consts=dict(N=3, MaxKids=2, MinHi=1, Axes={'ctc'}, MaxCtc=1, CtcDepth=0, CtcBinOps=set(), CtcMinFeatures=3,
+                                      CtcChains={(o, n) for o in ('AND', 'OR') for n in (6, 7, 10, 12)}),
+                          invariants=tlc.GEN_INVARIANTS) for t in ('quick', 'thorough')},
     'Ref-afm-Mix': {t: dict(consts=dict(N=5, MaxKids=3, MinHi=0, Axes={'ctc', 'attr'}, AttrNames=['a1'], AttrVals=ATTR_VALS_AFM, MaxCtc=2,
                                         CtcDepth=1, CtcBinOps=ALL_OPS_NOT_XOR, CtcMinFeatures=3, Fmt='afm', MaxLevel=9),
                             invariants=tlc.GEN_INVARIANTS, simulate=dict(num=300, depth=9)) for t in ('quick', 'thorough')},
